@@ -94,17 +94,17 @@ def build_hank(
             logger.info("... uncertainty calculations...")
             Nb = N // nb  # number of samples per segment
             T = np.zeros(((p + 1) * q * l * r, nb))  # Square root of SIGMA_H
-            Hvec0 = Hank.reshape(-1, 1)  # vectorialised hankel
+            Hvec0 = Hank.reshape(-1, 1, order="F")  # vectorialised hankel
             Hcov = np.zeros(((p + 1) * l, q * r))  # Averaged version of the Hankel matrix
 
             for k in range(nb):
                 # Section 3.2 and 5.1 of DoMe13
                 Yp_k = Yf[:, (k * Nb) : ((k + 1) * Nb)]
                 Ym_k = Yp[:, (k * Nb) : ((k + 1) * Nb)]
-                Hcov_k = np.dot(Yp_k, Ym_k.T) / Nb
+                Hcov_k = np.dot(Yp_k, Ym_k.T) * N / Nb
 
                 Hcov += Hcov_k / nb
-                Hcov_vec_k = Hcov_k.reshape(-1, 1)
+                Hcov_vec_k = Hcov_k.reshape(-1, 1, order="F")
                 T[:, k] = (Hcov_vec_k - Hvec0).flatten() / np.sqrt(nb * (nb - 1))
 
             logger.debug("... Hankel and SIGMA_H Done!")
